@@ -332,3 +332,27 @@ func init() {
 			Old: "\tfor i, lit := range lits {\n\t\tnegated[i] = -lit\n\t}", New: "\tfor i := 0; i < len(lits); i++ {\n\t\tnegated[i] = -lits[i]\n\t}", Expect: ""},
 	)
 }
+
+func init() {
+	addSeeds(
+		// ---- C03 step identity (R3.5): edits applied to BOTH siblings alike are invisible to sibling comparison ----
+		seed{Prop: "C03", Name: "both-degrees-not-strict", File: "solver/solver.go",
+			Old:  "\t\ts.AppendClause(NewPBClause(lits2, weights2, maxCost-cost+1))\n\t\ts.rebuildOrderHeap()\n\t\tstatus = s.Solve()\n\t}\n\treturn res",
+			New:  "\t\ts.AppendClause(NewPBClause(lits2, weights2, maxCost-cost))\n\t\ts.rebuildOrderHeap()\n\t\tstatus = s.Solve()\n\t}\n\treturn res",
+			More: []edit{{"solver/solver.go", "\t\ts.AppendClause(NewPBClause(lits2, weights2, maxCost-cost+1))\n\t\ts.rebuildOrderHeap()\n\t\tstatus = s.Solve()\n\t}\n\treturn cost", "\t\ts.AppendClause(NewPBClause(lits2, weights2, maxCost-cost))\n\t\ts.rebuildOrderHeap()\n\t\tstatus = s.Solve()\n\t}\n\treturn cost"}}, Expect: "R3.5"},
+		seed{Prop: "C03", Name: "minimize-counts-false-literals", File: "solver/solver.go",
+			Old: "\t\t\tif s.model[lit.Var()] > 0 == lit.IsPositive() {\n\t\t\t\tif s.minWeights == nil {\n\t\t\t\t\tcost++\n\t\t\t\t} else {\n\t\t\t\t\tcost += s.minWeights[i]\n\t\t\t\t}\n\t\t\t}\n\t\t}\n\t\tif cost == 0 {\n\t\t\treturn 0",
+			New: "\t\t\tif s.model[lit.Var()] > 0 != lit.IsPositive() {\n\t\t\t\tif s.minWeights == nil {\n\t\t\t\t\tcost++\n\t\t\t\t} else {\n\t\t\t\t\tcost += s.minWeights[i]\n\t\t\t\t}\n\t\t\t}\n\t\t}\n\t\tif cost == 0 {\n\t\t\treturn 0", Expect: "R3.5"},
+		seed{Prop: "C03", Name: "optimal-maxcost-ignores-weights", File: "solver/solver.go",
+			Old: "\t// log.Printf(\"found a solution, now minimizing...\")\n\tmaxCost := 0\n\tif s.minWeights == nil {\n\t\tmaxCost = len(s.minLits)\n\t} else {\n\t\tfor _, w := range s.minWeights {\n\t\t\tmaxCost += w\n\t\t}\n\t}",
+			New: "\t// log.Printf(\"found a solution, now minimizing...\")\n\tmaxCost := len(s.minLits)", Expect: "R3.5"},
+		seed{Prop: "C03", Name: "optimal-does-not-stop-at-zero", File: "solver/solver.go",
+			Old: "\t\tif cost == 0 {\n\t\t\tbreak\n\t\t}\n", New: "", Expect: "R3.5"},
+		seed{Prop: "C03", Name: "minimize-hypothesis-not-negated", File: "solver/solver.go",
+			Old: "\t\ts.hypothesis[i] = lit.Negation()\n\t}\n\tweights := make([]int, len(s.minWeights))\n\tcopy(weights, s.minWeights)\n\tsort.Sort(wLits{lits: s.hypothesis, weights: weights})\n\ts.lastModel = make(Model, len(s.model))\n\tvar cost int\n\tfor status == Sat {\n\t\tcopy(s.lastModel, s.model) // Save this model: it might be the last one\n\t\tcost = 0\n\t\tfor i, lit := range s.minLits {\n\t\t\tif s.model[lit.Var()] > 0 == lit.IsPositive() {\n\t\t\t\tif s.minWeights == nil {\n\t\t\t\t\tcost++\n\t\t\t\t} else {\n\t\t\t\t\tcost += s.minWeights[i]\n\t\t\t\t}\n\t\t\t}\n\t\t}\n\t\tif cost == 0 {\n\t\t\treturn 0",
+			New: "\t\ts.hypothesis[i] = lit\n\t}\n\tweights := make([]int, len(s.minWeights))\n\tcopy(weights, s.minWeights)\n\tsort.Sort(wLits{lits: s.hypothesis, weights: weights})\n\ts.lastModel = make(Model, len(s.model))\n\tvar cost int\n\tfor status == Sat {\n\t\tcopy(s.lastModel, s.model) // Save this model: it might be the last one\n\t\tcost = 0\n\t\tfor i, lit := range s.minLits {\n\t\t\tif s.model[lit.Var()] > 0 == lit.IsPositive() {\n\t\t\t\tif s.minWeights == nil {\n\t\t\t\t\tcost++\n\t\t\t\t} else {\n\t\t\t\t\tcost += s.minWeights[i]\n\t\t\t\t}\n\t\t\t}\n\t\t}\n\t\tif cost == 0 {\n\t\t\treturn 0", Expect: "R3.5"},
+		seed{Prop: "C03", Name: "optimal-constraint-on-shared-weights", File: "solver/solver.go",
+			Old: "\t\tcopy(weights2, weights)\n\t\ts.AppendClause(NewPBClause(lits2, weights2, maxCost-cost+1))\n\t\ts.rebuildOrderHeap()\n\t\tstatus = s.Solve()\n\t}\n\treturn res",
+			New: "\t\tcopy(weights2, weights)\n\t\ts.AppendClause(NewPBClause(lits2, weights, maxCost-cost+1))\n\t\ts.rebuildOrderHeap()\n\t\tstatus = s.Solve()\n\t}\n\treturn res", Expect: "R3.5"},
+	)
+}
